@@ -256,6 +256,7 @@ func checkC14(c *Ctx) {
 	}
 
 	// ---- R2 mirror completeness
+	c.Rule("C14.R2.mirror-filters", "a directed emission and its mirror sit behind the same comma-ok presence tests (same collections, made anonymous in the spec they come from, same polarity)", 40)
 	c.Rule("C14.R2.mirror", "every directed emission has a mirror emission: mirror code, in the same function or the function named with Added↔Deleted swapped, under the mirror trigger", 40)
 	normFn := func(fn string) string {
 		fn = strings.ReplaceAll(fn, "Added", "±")
@@ -289,7 +290,7 @@ func checkC14(c *Ctx) {
 			wantKinds = append(wantKinds, mirrorKind[k])
 		}
 		sort.Strings(wantKinds)
-		found := false
+		found, sameFilters := false, false
 		for _, o := range sites {
 			if o.Code != want && !(bs.Code == "DeletedProperty" && o.Code == "AddedRequiredProperty") && !(bs.Code == "AddedEndpoint" && o.Code == "DeletedDeprecatedEndpoint") {
 				continue
@@ -302,11 +303,19 @@ func checkC14(c *Ctx) {
 			}
 			if strings.Join(dirKinds(o.Derived), ",") == strings.Join(wantKinds, ",") {
 				found = true
+				if strings.Join(lookupGuards(r, o.Site), " ") == strings.Join(lookupGuards(r, bs.Site), " ") {
+					sameFilters = true
+				}
 			}
 		}
 		key := siteKey(bs.Site, bs.Code) + " ↔ " + want
 		if bs.Call != nil {
 			key += " @ " + bs.Call.FnName + "(" + strings.Join(bs.ArgNames, ",") + ")"
+		}
+		if found {
+			c.Check(sameFilters, "C14.R2.mirror-filters", key, c.posOf(pk, bs.Pos), "the mirror emission sits behind the same presence filters ["+strings.Join(lookupGuards(r, bs.Site), " ")+"]",
+				fmt.Sprintf("%s is emitted behind the presence tests [%s] but no mirror emission of %s is behind the same ones: a filter (e.g. a set of items already dealt with) applied in one direction only makes the swapped comparison report a different number of differences",
+					bs.Code, strings.Join(lookupGuards(r, bs.Site), " "), want))
 		}
 		c.Check(found, "C14.R2.mirror", key, c.posOf(pk, bs.Pos), "mirror emission exists",
 			fmt.Sprintf("%s under [%s] has no mirror: no emission of %s under [%s] in %s (or its Added↔Deleted twin): the swapped comparison reports a different number of differences",
@@ -662,7 +671,6 @@ func checkLoopCarriedLocations(c *Ctx, pk *packages.Package) {
 	}
 }
 
-
 // checkMirrorLoops: a function that looks for items missing on either side does it with two
 // loops — one ranging a collection of spec 1 and looking its keys up in spec 2 ("deleted"), one
 // the other way round ("added"). The two loops must range collections derived the same way
@@ -759,7 +767,6 @@ func mapValues(m map[string]string) []string {
 	return out
 }
 
-
 // checkBalancedPredicates: a kind predicate (isArray, isRefType, isPrimitive…) that a function
 // applies, in a condition, to a value of one spec must also be applied to the twin value of the
 // other spec somewhere in the conditions of the same function: a branch selected by the old
@@ -822,4 +829,41 @@ func checkBalancedPredicates(c *Ctx, r *goan.Rel) {
 				fmt.Sprintf("%s is tested %d time(s) on the old spec's value and %d time(s) on the new one's: the branch it selects is taken for a change of kind in one direction only, so the report of A→B is not the mirror of B→A", k, ct.s1, ct.s2))
 		}
 	}
+}
+
+// lookupGuards lists the comma-ok presence tests among the control guards of an emission:
+// `±ok∈<collection>` with the collection rendered without the spec it comes from.
+func lookupGuards(r *goan.Rel, s *goan.Site) []string {
+	info := r.Info()
+	var out []string
+	for _, g := range s.Guards {
+		id, ok := ast.Unparen(g.E).(*ast.Ident)
+		if !ok {
+			continue
+		}
+		obj := info.ObjectOf(id)
+		var src ast.Expr
+		ast.Inspect(s.Fn.Body, func(n ast.Node) bool {
+			as, isAs := n.(*ast.AssignStmt)
+			if !isAs || len(as.Lhs) != 2 || len(as.Rhs) != 1 {
+				return true
+			}
+			if l, isId := as.Lhs[1].(*ast.Ident); isId && info.ObjectOf(l) == obj {
+				if ix, isIx := ast.Unparen(as.Rhs[0]).(*ast.IndexExpr); isIx {
+					src = ix.X
+				}
+			}
+			return true
+		})
+		if src == nil {
+			continue
+		}
+		pol := "+"
+		if !g.Pos {
+			pol = "-"
+		}
+		out = append(out, pol+"ok∈"+r.TwinKeyResolved(src, s.Fn.Body))
+	}
+	sort.Strings(out)
+	return out
 }
